@@ -188,7 +188,7 @@ class FixedMarginBusiness(Sector):
         # Declared here (filled in by _GenerateEquations) so that the labour market finds the
         # demand no matter whether it is processed before or after this sector.
         self.AddVariable('DEM_' + labour_input_name, 'Demand for labour', '')
-        self.AddVariable('PROF', 'Profits', 'SUP_GOOD - DEM_' + labour_input_name)
+        self.AddVariable('PROF', 'Profits', 'SUP_' + output_name + ' - DEM_' + labour_input_name)
 
     def _GenerateEquations(self):
         # self.AddVariable('SUP_GOOD', 'Supply of goods', '<TO BE DETERMINED>')
